@@ -16,18 +16,56 @@ NA = {
 }
 
 # id -> (level category, level text, level note, technique, design ref)
+SIM_TECH = "deterministic simulation: seeded trace generation (one PRNG from VERIF_SEED) + pure trace executor against the real code + executable reference model as oracle + fault injection; seeded search over many runs in crash-contained worker processes; delta-debugged replay files confirmed in a fresh process"
+
 CHECKS = {
+ "C01": ("exploration",
+         "Seeded search over producer modules pushed through a legally REORDERING medium (module-level instructions moved anywhere incl. into blocks, sections permuted, parameters moved behind blocks, string padding and spare version bytes randomised), then real load -> real assemble -> real load; conservation / exactly-once / stable-order oracle word for word against an independent reference encoder and the bracket automaton's layout sort. Sampling over ~2e5 modules per quick run; all opcodes whose layout class the statement fixes are exercised.",
+         "Trusts the reference encoder, the reference acceptor (its reading of the input bytes defines 'the input's instructions'), the hand-transcribed layout table (DESIGN §3.4) and the frozen grammar snapshot. Conditional on acceptance: a module the real loader rejects is skipped (C05 reports that).",
+         SIM_TECH + "; faults = legal message reordering / padding corruption", "§5 C01"),
+ "C03": ("fault_enumeration",
+         "Seeded producer modules over all 787 opcodes through 0-3 storage faults (truncation, bit flips, word/word-count/opcode/enumerant substitution, operand loss/insertion, unterminated strings, message loss/dup/reorder, garbage), judged against a table-driven reference acceptor run on the post-fault bytes: acceptance, delivered prefix, error class, instruction number, offset extent. One run in 25 ENUMERATES every truncation offset and every word-count/operand-drop/operand-extra variant of one instruction (the property's own quantifier).",
+         "Grammar = frozen snapshot of the pinned tree (Khronos JSON is not available offline); documented don't-cares (trailing 1-3 byte fragment, OpSpecConstantOp nesting optional/variadic operands, poisoned ids); an extent clipped by EOF may be reported as missing or surplus.",
+         SIM_TECH + "; single-fault positions enumerated per seeded workload", "§5 C03"),
+ "C04": ("fault_enumeration",
+         "Invariant check (no panic with overflow checks and debug assertions on, no signal under guard pages, callbacks <= words) over multi-fault corruptions of producer modules, planted hot spots (OpSpecConstantOp naming any opcode, OpConstant of undeclared type, every int/float width), raw random bytes/words, every entry point (parse_bytes, parse_words, load_bytes, assemble, module/function/instruction disassemble) and random Decoder request sequences with limits 0..usize::MAX; one run in 30 enumerates every truncation offset. Worker-process death is contained, attributed to the run and reported.",
+         "UB that neither traps nor trips a debug assertion is outside the native lanes (Miri lane: see DESIGN §2.4 status). Consumer is well-behaved by construction.",
+         SIM_TECH + "; guard pages + process containment decide out-of-buffer reads and aborts", "§5 C04"),
+ "C05": ("exploration",
+         "Seeded instruction-class histories (well-formed module hit by message faults drop/dup/swap/move/insert biased to bracket boundaries, or free words of length <= 8 over the alphabet) fed to the real loader through load_words; a reference bracket automaton + section map predicts acceptance, the FIRST structural error and the resulting module section by section. All (state, letter) transitions are reached in the quick tier (evidence: state_triples).",
+         "Layout classes and terminator set are a hand transcription of the SPIR-V logical layout limited to the classes the property names (vendor / context-dependent module-scope opcodes are outside the alphabet). OpLine in a function outside a block is not judged.",
+         SIM_TECH + "; message-level faults on the instruction history", "§5 C05"),
+ "C06": ("exploration",
+         "Seeded complete Builder histories over the WHOLE source-derived method table (1149 bound methods; build.rs re-derives the call table from /repo's sources on every build): every call's emitted instruction is compared with the intended grammar-order operand list, then module() -> assemble -> load_words must succeed and the loaded module must equal the built one section by section; version and bound checked. Quick tier calls every bound method >= 100 times.",
+         "Method<->opcode binding is by name (heck snake_case) plus a table for hand-written methods; arguments are kept grammar-conforming by construction (see evidence assumptions); 10 known findings (known_findings.json) are reported as KNOWN-FINDING lines.",
+         SIM_TECH + "; refinement of recorded intent", "§5 C06"),
+ "C10": ("exploration",
+         "Seeded histories of int/float declarations (supported and unsupported widths), value definitions carrying types through result types, and OpConstant/OpSpecConstant/OpSwitch consumers on declared/undeclared/forward-declared ids, judged against a reference type context; each history is also parsed under a schedule involving a conflicting second binary: after it, NESTED inside its k-th consumer callback (re-entrancy), it nested inside the history's parse, one consumer reused - results must equal the stand-alone parse; assembler word counts re-checked.",
+         "Ids are defined once in the history under test; literal-truncation faults only.",
+         SIM_TECH + "; schedules = order / nesting of two parses through the Consumer seam", "§5 C10"),
  "C11": ("exploration",
-         "Seeded search over decoder request/limit histories on fault-shaped buffers (EOF at any byte, ragged tails, limits from 0 to usize::MAX), each step judged against a two-field executable reference decoder; buffers sit against PROT_NONE guard pages so an out-of-buffer read kills the worker and is reported. Sampling, not proof: a clean batch is evidence over the histories explored.",
-         "Trusts the frozen grammar snapshot for enumerant validity, the reference decoder model (150 lines), and rustc's overflow checks / guard pages for detecting overflow and overread.",
-         "deterministic simulation: seeded request-history generation + reference-model refinement check + fault injection on the byte medium; delta-debugged replay files", "§5 C11"),
+         "Seeded search over decoder request/limit histories on fault-shaped buffers (EOF at any byte, ragged tails, limits from 0 to usize::MAX), each step judged against a two-field executable reference decoder; buffers sit against PROT_NONE guard pages so an out-of-buffer read kills the worker and is reported.",
+         "Trusts the frozen grammar snapshot for enumerant validity and the reference decoder model; after a failed multi-word/typed/string request the model re-synchronises as the crate documents.",
+         SIM_TECH, "§5 C11"),
+ "C12": ("exploration",
+         "Seeded Builder call histories drawn regardless of legality (failing calls are the fault dimension), arbitrary selection indices, insert_ forms with in-range insertion points, stale-selection shapes as prefixes; after EVERY call: no panic, selection designates an existing function/block or nothing, Err iff the stated rule on the selection observed before the call, Err leaves the module unchanged (mirror taken before the call), Ok has exactly the documented effect, terminators/end_function close.",
+         "Where the statement is silent the model observes instead of predicting (which module-level section, block selection after select_function, success of select_*/pop).",
+         SIM_TECH + "; failure atomicity against a mirror model", "§5 C12"),
+ "C13": ("exploration",
+         "Seeded histories biased to id allocation: id(), all 65 generated type methods with and without explicit ids over a small request pool, constants, functions/blocks, block methods that reserve an id and then fail, continuation through Builder::new_from_module; fresh ids strictly increasing/distinct from 1 (or the bound), bound = id()+1 at module(), dedup returns an existing identical declaration and adds nothing, explicit ids always append, no duplicate types, distinct requests never share an id.",
+         "Number of ids burnt by failed calls is not modelled (only monotonicity and the exact final bound).",
+         SIM_TECH + "; monotone-id / bound / dedup model", "§5 C13"),
+ "C14": ("fault_enumeration",
+         "Per seeded binary (clean or with 1-2 storage faults) the scripted consumer's answer is ENUMERATED over every callback position k in {initialize, header, each instruction, finalize, one past} x {Stop, Error(unique tag)}, plus random multi-deviation scripts and the real Loader wrapped in a logging consumer; the callback log and the returned ParseState are checked against the protocol automaton, the all-Continue baseline and the reference acceptor.",
+         "A binary on which the all-Continue parse panics is C04's finding and skipped; acceptance itself is C03's question.",
+         SIM_TECH + "; cancellation injected at every callback position", "§5 C14"),
  "C19": ("exploration",
          "Seeded search over append / fetch_or_append / lookup histories on sr::Storage with adversarial equality relations (NaN-like, non-transitive) and an equality that unwinds mid-scan as the injected fault, refined step by step against a Vec model with a token-stability invariant after every step.",
          "Trusts the Vec reference model; equality relations are symmetric by construction; after an unwinding comparison only the weak post-condition is demanded.",
-         "deterministic simulation: seeded operation histories + reference-model refinement + injected unwinding comparison; delta-debugged replay files", "§5 C19"),
+         SIM_TECH, "§5 C19"),
 }
 
-PLANNED = ["C01", "C03", "C04", "C05", "C06", "C10", "C12", "C13", "C14", "C20"]
+PLANNED = ["C20"]
 
 def main():
     checks = []
